@@ -104,6 +104,8 @@ def run_shard(spec, tier, seed, budget_s):
                     t.note = (t.note or 'n') + rng.choice([' e\u0301', ' \u2126', ' A\u030a', ' \u212b \u212a', ' o\u0308\u0304'])
             for st in doc.stickies:
                 st.name = st.name + rng.choice(['', 'e\u0301', '\u2126'])
+                # characters that only a careless source normalisation would touch: an interior U+FEFF, Unicode line separators
+                st.text = st.text + rng.choice(['', ' zw\ufeffnbsp', ' ls\u2028x', ' nel\x85x', ' ff\x0cx', ' ps\u2029x'])
             if doc.project is not None:
                 doc.project.name = doc.project.name + rng.choice(['', 'A\u030a', '\u212a'])
             text = surface.render(doc, f'{seed}-{i}-{k}')
